@@ -122,6 +122,17 @@ def events(ops, outs):
                 if o == "noretry":
                     continue
                 e.retry = True
+                if o == "parked":
+                    # the retry itself was refused while `park-reject` was armed: it is held like any other refusal;
+                    # it was issued exactly at the advertised time (+extra)
+                    e.t = max(last429.t + last429.delay + int(kv(f, "extra") or 0), 0)
+                    now = max(now, e.t)
+                    e.src, e.amount, e.rates = last429.src, last429.amount, last429.rates
+                    last429 = None
+                    e.status, e.delay = None, 0
+                    pending = e
+                    evs.append(e)
+                    continue
                 e.t = int(kv(of, "t"))
                 now = max(now, e.t)
                 e.src, e.amount, e.rates = last429.src, last429.amount, last429.rates
